@@ -219,6 +219,38 @@ type Reuse struct {
 	Alt    *Contact
 }
 `},
+		// p10/p11: twins with identical column paths and repetition types but different
+		// physical types (anything keyed by path alone confuses them)
+		{Name: "p10", Type: "Twin", Code: `
+type Part struct {
+	Code  int32
+	Label *string
+}
+
+type Twin struct {
+	ID    int32
+	Name  string
+	Score *float32
+	Tags  []int64
+	Parts []Part
+	Flag  bool
+}
+`},
+		{Name: "p11", Type: "Twin", Code: `
+type Part struct {
+	Code  int64
+	Label *string
+}
+
+type Twin struct {
+	ID    int64
+	Name  string
+	Score *float64
+	Tags  []string
+	Parts []Part
+	Flag  bool
+}
+`},
 		{Name: "p8", Type: "Wide", Code: `
 type Wide struct {
 	S1 string
